@@ -100,7 +100,10 @@ class Site:
 
     def key(self):
         m = (self.msg or "")[:48]
-        k = "%s|%s|%s%s" % (self.fn.nkey, self.kind, norm(self.callee).split("::")[-1] if self.callee else "", ("|" + m) if m else "")
+        # closures and async blocks are attributed to the named function that contains them: moving a step into or out
+        # of a closure (combinator <-> match) does not rename the site
+        base = re.sub(r"(::\{closure#\d+\})+$", "", self.fn.nkey)
+        k = "%s|%s|%s%s" % (base, self.kind, norm(self.callee).split("::")[-1] if self.callee else "", ("|" + m) if m else "")
         pr = self.producer()
         if pr is not None:
             k += "|<=" + pr
@@ -118,6 +121,13 @@ def macro_of(x):
             if short in ("panic", "unreachable", "assert", "debug_assert", "assert_eq", "assert_ne", "debug_assert_eq", "debug_assert_ne", "todo", "unimplemented"):
                 return short
     return None
+
+
+def in_debug_assert(x):
+    for e in (x.get("x") or []):
+        if e.startswith("macro:Bang:") and e.split(":", 2)[2].split("::")[-1] in ("debug_assert", "debug_assert_eq", "debug_assert_ne"):
+            return True
+    return False
 
 
 def third_party_expansion(x):
@@ -158,6 +168,9 @@ def auto_discharge(facts, s):
     t = f.term(s.bb)
     if s.noise:
         return ("third-party-macro", "inside an expansion of a %s macro: independent of request values (listed once per macro)" % s.noise)
+    if in_debug_assert(t):
+        return ("debug-assertion", "inside debug_assert!: compiled out when cfg(debug_assertions) is off; the property is decided for the release profile and the "
+                "assertion is taken as the maintainers' statement of an internal invariant (assumption, listed in the evidence)")
     if t["k"] != "call":
         return None
     c = CallSite(f, s.bb, t)
@@ -207,6 +220,8 @@ def run(ctx, facts, entries, table, label, min_sites=1, scope=None):
         a = auto_discharge(facts, s)
         if a is not None:
             n_auto += 1
+            if a[0] == "debug-assertion" and not dup:
+                ctx.assume("debug assertion at %s (%s) is assumed to hold / compiled out in release builds" % (s.where(), s.fn.nkey))
             if not dup:
                 ctx.ok(k, "%s: %s" % a, s.where(), kind=a[0])
             continue
